@@ -1,4 +1,314 @@
-import OFCore.EnumCodec
+import OFCore.Lemmas.EnumCodec
+/-!
+# C15 — enum values survive encoding and decoding; invalid ones are rejected
+
+Theorems about the model `OFCore/EnumCodec.lean` of `Enum.encode`, `EnumArray.decode`,
+`EnumArray.decode_to_str` (repaired tree). They hold for every enumeration (any number of
+members, any declaration order of the names) and every input (any length, any container, any
+mix of element kinds). Vocabulary (defined in the model file):
+
+* `Elem.Designates e el` — `el` designates a member of `e`: an integer `0 ≤ v < n`, a declared
+  name, an instance of the class; `Elem.index e el` — the index of that member (for a name:
+  lookup by name, `nameIndex?`);
+* `Input.Rejected e x` — the exact set of inputs the repaired `encode` refuses;
+* `Input.WF e x` — every `Enum` instance of class `e` in `x` carries an index `< n` (a fact of
+  the Python object model; it fails only for a different enumeration declared under the same
+  class name, finding F-C15b); `Input.NotForeignArray e x` — `x` is not an `EnumArray` of
+  another enumeration (which `encode` hands back untouched).
+-/
 namespace OFCore
-theorem C15_placeholder : True := trivial
+open EnumCodec
+
+private def exE : Enumeration := ⟨0, ["b", "a", "c"]⟩
+
+/-- **Name lookup through `argsort` + `searchsorted` is lookup by name.** For distinct names,
+`sorter[searchsorted(names, v, sorter=sorter)]` (insertion sort + leftmost binary search) is the
+position of `v` in the declaration order. -/
+theorem C15_search_eq_lookup (names : List String) (hnd : names.Nodup) (v : String)
+    (hv : v ∈ names) :
+    ∃ i, nameIndex? names v = some i ∧ lookupSorted names v = .ok i ∧ names[i]? = some v := by
+  obtain ⟨i, h1, h2⟩ := lookupSorted_eq_nameIndex names hnd v hv
+  exact ⟨i, h1, h2, nameIndex?_some h1⟩
+
+example : ["b", "a", "c"].Nodup ∧ "c" ∈ ["b", "a", "c"] ∧ lookupSorted ["b", "a", "c"] "c" = .ok 2 ∧
+    argsort ["b", "a", "c"] = [1, 0, 2] := by decide
+
+/-- **Round trip.** Every accepted input (names, indices or members; list, tuple or array; any
+length) is encoded element by element to the index of the member each element designates;
+decoding gives back exactly those members, and their names, in the same order. -/
+theorem C15_decode_encode (e : Enumeration) (hnd : e.names.Nodup) (x : Input) (hwf : x.WF e)
+    (hown : x.NotForeignArray e) (hok : ¬ x.Rejected e) :
+    ∃ a, encode e x = .ok a ∧ a.owner = e.cid ∧
+      a.idx = x.elems.map (Elem.index e) ∧
+      decode e a = .ok (x.elems.map fun el => Elem.member e.cid (el.index e)) ∧
+      decodeToStr e a = .ok (x.elems.map fun el => e.names.getD (el.index e) "") := by
+  obtain ⟨henc, hall, hdec, hstr⟩ := decode_encode_code e x hwf hown hok
+  have hci : ∀ el ∈ x.elems, el.code e = el.index e := fun el hel =>
+    Elem.code_eq_index hnd (hall el hel).1
+  have hmap : x.elems.map (Elem.code e) = x.elems.map (Elem.index e) := List.map_congr_left hci
+  refine ⟨_, henc, rfl, hmap, ?_, ?_⟩
+  · rw [hdec]; congr 1; exact List.map_congr_left (fun el hel => by rw [hci el hel])
+  · rw [hstr]; congr 1; exact List.map_congr_left (fun el hel => by rw [hci el hel])
+
+example : exE.names.Nodup ∧ (Input.seq [.str "c", .str "a", .str "c"]).WF exE ∧
+    (Input.seq [.str "c", .str "a", .str "c"]).NotForeignArray exE ∧
+    ¬ (Input.seq [.str "c", .str "a", .str "c"]).Rejected exE ∧
+    encode exE (.seq [.str "c", .str "a", .str "c"]) = .ok ⟨0, [2, 1, 2]⟩ ∧
+    decodeToStr exE ⟨0, [2, 1, 2]⟩ = .ok ["c", "a", "c"] := by decide
+
+/-- Round trip for **names**: a list/tuple or a `str_` array of declared names decodes to the
+same names in the same order (and to the members of those names). -/
+theorem C15_decode_encode_names (e : Enumeration) (hnd : e.names.Nodup) (ss : List String)
+    (h : ∀ s ∈ ss, s ∈ e.names) (x : Input) (hx : x = .seq (ss.map .str) ∨ x = .strArr ss) :
+    ∃ a, encode e x = .ok a ∧ a.owner = e.cid ∧ a.idx.length = ss.length ∧
+      decodeToStr e a = .ok ss ∧
+      decode e a = .ok (ss.map fun s => Elem.member e.cid ((nameIndex? e.names s).getD 0)) := by
+  have helems : x.elems = ss.map .str := by rcases hx with rfl | rfl <;> rfl
+  have hwf : x.WF e := by
+    intro el hel
+    rw [helems] at hel
+    obtain ⟨s, _, rfl⟩ := List.mem_map.mp hel
+    trivial
+  have hown : x.NotForeignArray e := by rcases hx with rfl | rfl <;> trivial
+  have hok : ¬ x.Rejected e := by
+    rcases hx with rfl | rfl
+    · rintro ⟨_, ⟨el, hel, hnd'⟩ | hnk⟩
+      · obtain ⟨s, hs, rfl⟩ := List.mem_map.mp hel
+        exact hnd' (h s hs)
+      · apply hnk
+        apply sameKind_of_forall (k := .str)
+        intro el hel
+        obtain ⟨s, _, rfl⟩ := List.mem_map.mp hel
+        rfl
+    · rintro ⟨s, hs, hn⟩
+      exact hn (h s hs)
+  obtain ⟨a, henc, hown', hidx, hdec, hstr⟩ := C15_decode_encode e hnd x hwf hown hok
+  refine ⟨a, henc, hown', ?_, ?_, ?_⟩
+  · rw [hidx, helems]; simp
+  · rw [hstr, helems, List.map_map]
+    congr 1
+    conv => rhs; rw [← List.map_id ss]
+    apply List.map_congr_left
+    intro s hs
+    exact names_getD_nameIndex (h s hs)
+  · rw [hdec, helems, List.map_map]
+    rfl
+
+example : (∀ s ∈ ["c", "a"], s ∈ exE.names) ∧
+    encode exE (.strArr ["c", "a"]) = .ok ⟨0, [2, 1]⟩ ∧
+    decode exE ⟨0, [2, 1]⟩ = .ok [.member 0 2, .member 0 1] := by decide
+
+/-- Round trip for **indices**: a list/tuple or an integer array (any dtype) of indices within
+`0 ≤ v < n` is encoded to itself and decodes to the members with those indices. -/
+theorem C15_decode_encode_indices (e : Enumeration) (vs : List Int)
+    (h : ∀ v ∈ vs, 0 ≤ v ∧ v < (e.size : Int)) (x : Input)
+    (hx : x = .seq (vs.map .int) ∨ x = .intArr vs) :
+    ∃ a, encode e x = .ok a ∧ a.owner = e.cid ∧ a.idx = vs.map Int.toNat ∧
+      decode e a = .ok (vs.map fun v => Elem.member e.cid v.toNat) := by
+  have helems : x.elems = vs.map .int := by rcases hx with rfl | rfl <;> rfl
+  have hwf : x.WF e := by
+    intro el hel
+    rw [helems] at hel
+    obtain ⟨s, _, rfl⟩ := List.mem_map.mp hel
+    trivial
+  have hown : x.NotForeignArray e := by rcases hx with rfl | rfl <;> trivial
+  have hok : ¬ x.Rejected e := by
+    rcases hx with rfl | rfl
+    · rintro ⟨_, ⟨el, hel, hnd'⟩ | hnk⟩
+      · obtain ⟨v, hv, rfl⟩ := List.mem_map.mp hel
+        exact hnd' (h v hv)
+      · apply hnk
+        apply sameKind_of_forall (k := .int)
+        intro el hel
+        obtain ⟨s, _, rfl⟩ := List.mem_map.mp hel
+        rfl
+    · rintro ⟨v, hv, hn⟩
+      exact hn (h v hv)
+  obtain ⟨henc, _, hdec, _⟩ := decode_encode_code e x hwf hown hok
+  refine ⟨_, henc, rfl, ?_, ?_⟩
+  · rw [helems, List.map_map]; rfl
+  · rw [hdec, helems, List.map_map]; rfl
+
+example : (∀ v ∈ [2, 0, (1 : Int)], 0 ≤ v ∧ v < (exE.size : Int)) ∧
+    encode exE (.intArr [2, 0, 1]) = .ok ⟨0, [2, 0, 1]⟩ := by decide
+
+/-- Round trip for **members**: a list/tuple or an object array of members of the enumeration
+decodes to the very same members in the same order. -/
+theorem C15_decode_encode_members (e : Enumeration) (is : List Nat) (h : ∀ i ∈ is, i < e.size)
+    (x : Input)
+    (hx : x = .seq (is.map (Elem.member e.cid)) ∨ x = .objArr (is.map (Elem.member e.cid))) :
+    ∃ a, encode e x = .ok a ∧ a.owner = e.cid ∧ a.idx = is ∧ decode e a = .ok x.elems := by
+  have helems : x.elems = is.map (Elem.member e.cid) := by rcases hx with rfl | rfl <;> rfl
+  have hwf : x.WF e := by
+    intro el hel
+    rw [helems] at hel
+    obtain ⟨i, hi, rfl⟩ := List.mem_map.mp hel
+    exact fun _ => h i hi
+  have hown : x.NotForeignArray e := by rcases hx with rfl | rfl <;> trivial
+  have hok : ¬ x.Rejected e := by
+    rcases hx with rfl | rfl
+    · rintro ⟨_, ⟨el, hel, hnd'⟩ | hnk⟩
+      · obtain ⟨i, _, rfl⟩ := List.mem_map.mp hel
+        exact hnd' rfl
+      · apply hnk
+        apply sameKind_of_forall (k := .enum)
+        intro el hel
+        obtain ⟨s, _, rfl⟩ := List.mem_map.mp hel
+        rfl
+    · rintro ⟨el, hel, hk | hd⟩
+      · obtain ⟨i, _, rfl⟩ := List.mem_map.mp hel
+        exact hk rfl
+      · obtain ⟨i, _, rfl⟩ := List.mem_map.mp hel
+        exact hd rfl
+  obtain ⟨henc, _, hdec, _⟩ := decode_encode_code e x hwf hown hok
+  have hcode : x.elems.map (Elem.code e) = is := by
+    rw [helems, List.map_map]
+    conv => rhs; rw [← List.map_id is]
+    exact List.map_congr_left (fun _ _ => rfl)
+  refine ⟨_, henc, rfl, hcode, ?_⟩
+  rw [hdec]
+  congr 1
+  conv => rhs; rw [← List.map_id x.elems]
+  apply List.map_congr_left
+  intro el hel
+  rw [helems] at hel
+  obtain ⟨i, _, rfl⟩ := List.mem_map.mp hel
+  rfl
+
+example : (∀ i ∈ [1, 1, 2], i < exE.size) ∧
+    encode exE (.objArr [.member 0 1, .member 0 1, .member 0 2]) = .ok ⟨0, [1, 1, 2]⟩ ∧
+    decode exE ⟨0, [1, 1, 2]⟩ = .ok [.member 0 1, .member 0 1, .member 0 2] := by decide
+
+/-- **An encoded array only holds indices that designate members** (and is tagged with the
+enumeration). -/
+theorem C15_encoded_valid (e : Enumeration) (x : Input) (a : EnumArray) (hwf : x.WF e)
+    (hown : x.NotForeignArray e) (h : encode e x = .ok a) :
+    a.owner = e.cid ∧ ∀ i ∈ a.idx, i < e.size := by
+  by_cases hrej : x.Rejected e
+  · obtain ⟨m, hm⟩ := encode_error_of_rejected e x hrej
+    rw [hm] at h; cases h
+  · obtain ⟨henc, hall, _, _⟩ := decode_encode_code e x hwf hown hrej
+    rw [henc] at h
+    cases h
+    refine ⟨rfl, ?_⟩
+    intro i hi
+    obtain ⟨el, hel, rfl⟩ := List.mem_map.mp hi
+    exact (hall el hel).2
+
+example : (Input.seq [.int 2, .int 0]).WF exE ∧ (Input.seq [.int 2, .int 0]).NotForeignArray exE ∧
+    encode exE (.seq [.int 2, .int 0]) = .ok ⟨0, [2, 0]⟩ := by decide
+
+/-- **Encoding an already encoded array changes nothing**: the `EnumArray` itself is handed
+back, and re-encoding the plain index array it holds gives the same array again. -/
+theorem C15_encode_idempotent (e : Enumeration) (x : Input) (a : EnumArray)
+    (h : encode e x = .ok a) :
+    encode e (.encoded a) = .ok a ∧
+    (x.WF e → x.NotForeignArray e → encode e (.intArr (a.idx.map Int.ofNat)) = .ok a) := by
+  refine ⟨rfl, ?_⟩
+  intro hwf hown
+  obtain ⟨ho, hv⟩ := C15_encoded_valid e x a hwf hown h
+  have hvalid : ∀ v ∈ a.idx.map Int.ofNat, 0 ≤ v ∧ v < (e.size : Int) := by
+    intro v hv'
+    obtain ⟨i, hi, rfl⟩ := List.mem_map.mp hv'
+    exact ⟨Int.natCast_nonneg i, Int.ofNat_lt.mpr (hv i hi)⟩
+  obtain ⟨a', henc, ho', hidx, _⟩ :=
+    C15_decode_encode_indices e (a.idx.map Int.ofNat) hvalid _ (Or.inr rfl)
+  rw [henc]
+  congr 1
+  cases a with
+  | mk owner idx =>
+    cases a' with
+    | mk owner' idx' =>
+      simp only at ho ho' hidx
+      subst ho ho' hidx
+      simp [List.map_map, Function.comp_def]
+
+example : encode exE (.seq [.str "c", .str "b"]) = .ok ⟨0, [2, 0]⟩ ∧
+    encode exE (.encoded ⟨0, [2, 0]⟩) = .ok ⟨0, [2, 0]⟩ ∧
+    encode exE (.intArr [2, 0]) = .ok ⟨0, [2, 0]⟩ := by decide
+
+/-- **`encode` raises exactly on the rejected inputs** (`Input.Rejected`): for a non-empty
+sequence, some element designates no member (unknown name, index `< 0` or `≥ n`, instance of
+another enumeration, unsupported kind) or the kinds are mixed; for a non-empty integer / string
+array, some element designates no member; for a non-empty object array, some element is not an
+instance of the enumeration; for a non-empty array of any other dtype, always. An `EnumArray`
+and an empty input of any container are never refused. -/
+theorem C15_error_iff (e : Enumeration) (x : Input) :
+    (∃ m, encode e x = .error m) ↔ x.Rejected e := by
+  constructor
+  · rintro ⟨m, hm⟩
+    apply Classical.byContradiction
+    intro hrej
+    rw [encode_ok_of_not_rejected e x hrej] at hm
+    cases hm
+  · exact encode_error_of_rejected e x
+
+example : (Input.seq [.int 1, .int (-1)]).Rejected exE ∧ (Input.seq [.int 0, .int 3]).Rejected exE ∧
+    (Input.seq [.str "a", .str "d"]).Rejected exE ∧ (Input.seq [.member 0 1, .member 1 0]).Rejected exE ∧
+    (Input.objArr [.member 0 1, .member 1 0]).Rejected exE ∧ (Input.seq [.other]).Rejected exE ∧
+    (Input.seq [.str "a", .int 0]).Rejected exE ∧ (Input.objArr [.str "a"]).Rejected exE ∧
+    (Input.intArr [-128]).Rejected exE ∧ (Input.otherArr 1).Rejected exE ∧
+    ¬ (Input.seq []).Rejected exE ∧ ¬ (Input.otherArr 0).Rejected exE ∧
+    ¬ (Input.seq [.str "a", .str "b"]).Rejected exE ∧
+    encode exE (.seq [.int 1, .int (-1)]) = .error "EnumMemberNotFoundError" ∧
+    encode exE (.seq [.str "a", .int 0]) = .error "EnumEncodingError" := by decide
+
+/-- **Anything that is not a member makes `encode` raise**: whatever the container (other than
+an `EnumArray`), if some element designates no member — unknown name, index outside the range
+on either side, member of another enumeration, unsupported element type — the call errs. -/
+theorem C15_nonmember_raises (e : Enumeration) (x : Input) (hraw : ∀ a, x ≠ .encoded a)
+    (el : Elem) (hel : el ∈ x.elems) (hnd : ¬ el.Designates e) : ∃ m, encode e x = .error m := by
+  apply encode_error_of_rejected
+  cases x with
+  | encoded a => exact absurd rfl (hraw a)
+  | seq xs => exact ⟨List.ne_nil_of_mem hel, Or.inl ⟨el, hel, hnd⟩⟩
+  | intArr vs =>
+    obtain ⟨v, hv, rfl⟩ := List.mem_map.mp hel
+    exact ⟨v, hv, hnd⟩
+  | strArr ss =>
+    obtain ⟨s, hs, rfl⟩ := List.mem_map.mp hel
+    exact ⟨s, hs, hnd⟩
+  | objArr xs => exact ⟨el, hel, Or.inr hnd⟩
+  | otherArr n =>
+    have := (List.mem_replicate.mp hel).1
+    exact this
+
+example : Elem.member 1 0 ∈ (Input.seq [.member 0 2, .member 1 0]).elems ∧
+    ¬ (Elem.member 1 0).Designates exE ∧ ¬ (Elem.int 3).Designates exE ∧ ¬ (Elem.int (-1)).Designates exE ∧
+    ¬ (Elem.str "B").Designates exE ∧ ¬ Elem.other.Designates exE := by decide
+
+/-- **Mixed sequences are refused**, even when every element designates a member. -/
+theorem C15_mixed_raises (e : Enumeration) (xs : List Elem) (a b : Elem) (ha : a ∈ xs) (hb : b ∈ xs)
+    (hab : a.kind ≠ b.kind) : ∃ m, encode e (.seq xs) = .error m :=
+  encode_error_of_rejected e _ ⟨List.ne_nil_of_mem ha, Or.inr (fun hk => hab (hk a ha b hb))⟩
+
+example : (Elem.str "a").Designates exE ∧ (Elem.int 0).Designates exE ∧
+    (Elem.str "a").kind ≠ (Elem.int 0).kind := by decide
+
+/-- **Empty inputs** of every container give the empty array of the enumeration. -/
+theorem C15_empty_accepted (e : Enumeration) (x : Input) (hraw : ∀ a, x ≠ .encoded a)
+    (h0 : x.len = 0) : encode e x = .ok ⟨e.cid, []⟩ := by
+  cases x with
+  | encoded a => exact absurd rfl (hraw a)
+  | seq xs => rw [encode_seq]; exact if_pos h0
+  | intArr vs => rw [encode_intArr]; exact if_pos h0
+  | strArr ss => rw [encode_strArr]; exact if_pos h0
+  | objArr xs => rw [encode_objArr]; exact if_pos h0
+  | otherArr n => rw [encode_otherArr]; exact if_pos h0
+
+example : (Input.otherArr 0).len = 0 ∧ encode exE (.otherArr 0) = .ok ⟨0, []⟩ := by decide
+
 end OFCore
+
+/-! axiom audit (⊆ propext, Classical.choice, Quot.sound) -/
+#print axioms OFCore.C15_search_eq_lookup
+#print axioms OFCore.C15_decode_encode
+#print axioms OFCore.C15_decode_encode_names
+#print axioms OFCore.C15_decode_encode_indices
+#print axioms OFCore.C15_decode_encode_members
+#print axioms OFCore.C15_encoded_valid
+#print axioms OFCore.C15_encode_idempotent
+#print axioms OFCore.C15_error_iff
+#print axioms OFCore.C15_nonmember_raises
+#print axioms OFCore.C15_mixed_raises
+#print axioms OFCore.C15_empty_accepted
